@@ -480,6 +480,137 @@ def gen_seq(rng, tier):
     return streams
 
 
+# ---------------------------------------------------------------- overlapping calls (c20N, c20G)
+# c20N: the outer call's getWeight makes an INNER call when asked for index j (two-pass protocol
+# with the nested draw order replayed); model: the two stand-alone answers (a call is a pure function
+# of its arguments and key order; nothing a callback does can reach the call in progress).
+# c20G: goroutines calling concurrently on private weights; the shared global generator makes the
+# draws of a single call irreproducible, so: implementation + monitors only (length, range,
+# distinct, permutation) -- no model comparison, no top-k.
+def build_nested_cases(binary, pres):
+    """pres: list of (seed, k, n, j, k2, n2, ws, ws2)"""
+    lines = ["c20keysN %d %d %d %d W %s W2 %s" % (seed, n, j, n2, " ".join(ws), " ".join(ws2))
+             for (seed, k, n, j, k2, n2, ws, ws2) in pres]
+    outs = common.run_impl(binary, lines) if lines else []
+    cases = []
+    for (seed, k, n, j, k2, n2, ws, ws2), o in zip(pres, outs):
+        if not o.startswith("keys="):
+            raise RuntimeError("nested reference-key replay failed: " + o[:200])
+        d = dict(x.split("=", 1) for x in o.split())
+        keys = [float(x) for x in d["keys"].split(",")]
+        ikeys = [float(x) for x in d["ikeys"].split(",")]
+        cases.append("c20N %d %d %d %d %d %d W %s R %s W2 %s R2 %s" % (
+            seed, k, n, j, k2, n2, " ".join(ws), " ".join(map(str, signed_ranks(keys))),
+            " ".join(ws2), " ".join(map(str, signed_ranks(ikeys)))))
+    return cases
+
+
+def nested_parts(case):
+    """-> (outer single-call case, inner single-call case, j)"""
+    t = case.split()
+    seed, k, n, j, k2, n2 = [int(x) for x in t[1:7]]
+    pr, pw2, pr2 = t.index("R"), t.index("W2"), t.index("R2")
+    outer = "c20 %d %d %d W %s R %s" % (seed, k, n, " ".join(t[8:pr]), " ".join(t[pr + 1:pw2]))
+    inner = "c20 %d %d %d W %s R %s" % (seed, k2, n2, " ".join(t[pw2 + 1:pr2]), " ".join(t[pr2 + 1:]))
+    return outer, inner, j
+
+
+def nested_impl_parts(impl):
+    if not impl.startswith("r="):
+        return None
+    d = dict(x.split("=", 1) for x in impl.split())
+    return ("r=%s keys=%s calls=%s" % (d["r"], d["keys"], d["calls"]),
+            "r=%s keys=%s calls=%s" % (d["ir"], d["ikeys"], d["icalls"]))
+
+
+def compare_nested(case, model, impl):
+    outer, inner, j = nested_parts(case)
+    if impl.startswith("RANK-MISMATCH") or impl.startswith("NONDETERMINISTIC") or "HARNESS" in impl:
+        return "harness: " + impl[:200]
+    if not model.startswith("r="):
+        return "model failed: " + model[:100]
+    md = dict(x.split("=", 1) for x in model.split())
+    ip = nested_impl_parts(impl)
+    if ip is None:
+        return "outer call with a nested call inside getWeight(%d): implementation gave no result (%s)" % (j, impl[:160])
+    for name, single, m, i in (("outer", outer, md["r"], ip[0]), ("inner", inner, md["ir"], ip[1])):
+        note = compare(single, "PANIC" if m == "PANIC" else "r=" + m, i)
+        if note:
+            return "%s call (inner call made from inside the outer call's getWeight(%d)): %s" % (name, j, note)
+    return None
+
+
+def monitor_nested(case, impl):
+    outer, inner, j = nested_parts(case)
+    ip = nested_impl_parts(impl)
+    if ip is None:
+        if impl.startswith("PANIC") and "HARNESS" not in impl:
+            return ("panic", "outer call with a nested call inside getWeight(%d) panicked: %s" % (j, impl[:160]))
+        return None
+    for name, single, i in (("outer", outer, ip[0]), ("inner", inner, ip[1])):
+        mf = monitor(single, i)
+        if mf:
+            return (mf[0], "%s call (inner call made from inside the outer call's getWeight(%d)): %s" % (name, j, mf[1]))
+    return None
+
+
+def gen_nested(rng, tier):
+    quick = tier == "quick"
+    pres = []
+    # bounded-exhaustive: all outer (k, n) <= N, every j < n, a few inner shapes
+    N = 4 if quick else 6
+    for n in range(1, N + 1):
+        for k in range(1, n + 1):
+            for j in range(n):
+                for (k2, n2) in ((1, 1), (1, 3), (2, 3), (3, 3), (k, n), (2, 6)):
+                    if 1 <= k2 <= n2:
+                        pres.append((rng.range(0, 1 << 62), k, n, j, k2, n2,
+                                     gen_weights(rng, n, rng.choice(["int", "skewed"])), gen_weights(rng, n2, rng.choice(["int", "equal-small"]))))
+    for _ in range(300 if quick else 5000):
+        n = rng.choice([2, 3, 7, 16, 33, rng.range(1, 64)])
+        k = rng.choice([1, n, max(1, n - 1), rng.range(1, n)])
+        n2 = rng.choice([1, 2, 5, 16, rng.range(1, 64)])
+        k2 = rng.choice([1, n2, rng.range(1, n2)])
+        pres.append((rng.range(0, 1 << 62), k, n, rng.choice([0, n - 1, rng.below(n), min(n - 1, k)]), k2, n2,
+                     gen_weights(rng, n, rng.choice(KINDS)), gen_weights(rng, n2, rng.choice(KINDS))))
+    return pres
+
+
+def monitor_conc(case, impl):
+    parts = case.split(" | ")
+    outs = impl.split(" | ")
+    subs = parts[1:]
+    if len(outs) != len(subs):
+        return ("panic", "no result for the concurrent case: " + impl[:200])
+    for g, (sub, o) in enumerate(zip(subs, outs)):
+        t = sub.split()
+        k, n, ws = int(t[0]), int(t[1]), t[3:]
+        single = "c20 0 %d %d W %s R %s" % (k, n, " ".join(ws), " ".join(["0"] * n))
+        for rno, r in enumerate(o.split(";")):
+            mf = monitor(single, r if r.startswith("PANIC") else r + " keys= calls=%d" % n)
+            if mf:
+                return (mf[0], "goroutine %d of %d (call %d, private weights, concurrent with the others): %s" % (g, len(subs), rno, mf[1]))
+    return None
+
+
+def run_concurrent(chk, binary, rng, tier):
+    cases = []
+    for _ in range(80 if tier == "quick" else 1000):
+        subs = []
+        for _ in range(rng.choice([2, 3, 4, 8])):
+            n = rng.choice([1, 2, 3, 7, 16, rng.range(1, 40)])
+            k = rng.choice([1, n, max(1, n - 1), rng.range(1, n)])
+            subs.append("%d %d W %s" % (k, n, " ".join(gen_weights(rng, n, rng.choice(KINDS)))))
+        cases.append("c20G %d %d | %s" % (rng.choice([1, 1, 2, 0]), rng.choice([1, 3, 6]), " | ".join(subs)))
+    impl = common.run_impl(binary, cases)
+    for c, i in zip(cases, impl):
+        chk.count_case("concurrent-private-weights(impl+monitor)", c, True)
+        mf = monitor_conc(c, i)
+        if mf:
+            chk.monitor_fail(mf[0], c, i[:400], mf[1])
+    chk.cov["concurrent_calls"] = dict(cases=len(cases), kind="implementation + monitors only (shared generator: draws not reproducible)")
+
+
 STAT_VECTORS = [
     ("integers", ["1", "2", "3", "4"]),
     ("seven-equal-1e-3 (D9 input)", ["0.001"] * 7),
@@ -623,6 +754,12 @@ def run(chk):
             seq_streams = [(name, build_seq_cases(binary, sqs)) for name, sqs in gen_seq(chk.rng.fork(), chk.tier)]
             corpus_seq = [c for c in pure.corpus_cases("C20") if c.startswith("c20Q")]
             nseq = pure.run_streams(chk, binary, [("corpus-seq", corpus_seq)] + seq_streams, compare_seq, monitor_seq, nontrivial_seq)
+            # overlapping calls: an inner call made from inside getWeight; goroutines on private weights
+            ncs = build_nested_cases(binary, gen_nested(chk.rng.fork(), chk.tier))
+            corpus_n = [c for c in pure.corpus_cases("C20") if c.startswith("c20N")]
+            pure.run_streams(chk, binary, [("corpus-nested", corpus_n), ("nested-call-inside-getWeight", ncs)], compare_nested, monitor_nested,
+                             lambda case, model: model.startswith("r="))
+            run_concurrent(chk, binary, chk.rng.fork(), chk.tier)
             chk.cov["call_sequences"] = dict(sequences=nseq, calls=sum(len(seq_calls(c)) for _, cs in seq_streams for c in cs))
             # canary on the corpus witnesses
             canary(chk, binary, cases[:len(corpus)])
@@ -676,6 +813,12 @@ def search(chk):
                 mf = monitor_seq(c, i)
                 if mf:
                     chk.monitor_fail(mf[0], c, i, mf[1])
+        ncs = build_nested_cases(binary, gen_nested(rng.fork(), "quick"))
+        for c, i in zip(ncs, common.run_impl(binary, ncs)):
+            mf = monitor_nested(c, i)
+            if mf:
+                chk.monitor_fail(mf[0], c, i, mf[1])
+        run_concurrent(chk, binary, rng.fork(), "quick")
         sc = stat_cases(rng, "quick")
         so = common.run_impl(binary, [c for c, _ in sc])
         for (c, name), o in zip(sc, so):
@@ -704,6 +847,15 @@ def replay(chk, path):
             mf, cm = monitor(c, impl), compare(c, model, impl)
             print("case=%s\n  model=%s\n  impl=%s\n  monitor=%s compare=%s" % (c, model, impl, mf, cm))
             bad += 1 if (mf or cm) else 0
+        elif tag == "c20N":
+            model = common.run_model([c])[0]
+            mf, cm = monitor_nested(c, impl), compare_nested(c, model, impl)
+            print("case=%s\n  model=%s\n  impl=%s\n  monitor=%s compare=%s" % (c, model, impl, mf, cm))
+            bad += 1 if (mf or cm) else 0
+        elif tag == "c20G":
+            mf = monitor_conc(c, impl)
+            print("case=%s\n  impl=%s\n  monitor=%s" % (c, impl, mf))
+            bad += 1 if mf else 0
         elif tag == "c20Q":
             model = common.run_model([c])[0]
             mf, cm = monitor_seq(c, impl), compare_seq(c, model, impl)
